@@ -35,6 +35,7 @@ func call(sig string, in any, f func()) bool {
 }
 
 func main() {
+	ev.GuardFor("C14")
 	r := ev.Start("C14")
 	e = &enum.E{R: r}
 	maxLen := ev.Pick(r, 5, 7)
